@@ -1,6 +1,6 @@
 #!/usr/bin/env python3
 """
-seed_verify.py <Cxx> <k>   — confirm a seeded change produced by an independent sub-agent
+seed_verify.py <Cxx> <k> [srcdir [dest_k]]  — confirm a seeded change produced by an independent sub-agent
 (/tmp/seed-out/Cxx/k/{patch.diff,demo.py,meta.json}) in a fresh scratch worktree of /repo:
   * patch applies on a clean tree,  * unedited test-suite passes with it,
   * demo exits 0 on the clean tree and non-zero on the changed tree.
@@ -48,7 +48,7 @@ ok = res["patch_applies"] and res["suite_passes"] and res["demo_clean_exit"] == 
 res["confirmed"] = ok
 print(json.dumps(res, indent=1))
 if ok:
-    dst = "/verif/seeded/%s-%s" % (prop, k)
+    dst = "/verif/seeded/%s-%s" % (prop, sys.argv[4] if len(sys.argv) > 4 else k)
     os.makedirs(dst, exist_ok=True)
     shutil.copy(src + "/patch.diff", dst + "/patch.diff")
     shutil.copy(src + "/demo.py", dst + "/demo.py")
